@@ -20,16 +20,26 @@ inline std::ostream &operator<<(std::ostream &s, const UserLabel &l) {
     return s << "{" << l.a << "," << l.b << "}";
 }
 
+// a label type without data members (a tag): every value equals every other
+struct EmptyLabel {
+    bool operator==(const EmptyLabel &) const { return true; }
+    bool operator!=(const EmptyLabel &) const { return false; }
+    bool operator<(const EmptyLabel &) const { return false; }
+};
+inline std::ostream &operator<<(std::ostream &s, const EmptyLabel &) { return s << "{}"; }
+
 template <class L> struct LT;
 
 template <> struct LT<BaseGraph::NoLabel> {
     static constexpr bool labelled = false;
+    static constexpr bool singleValued = false;
     static const char *name() { return "NoLabel"; }
     static BaseGraph::NoLabel make(uint64_t) { return {}; }
     static std::string str(const BaseGraph::NoLabel &) { return "-"; }
 };
 template <> struct LT<int> {
     static constexpr bool labelled = true;
+    static constexpr bool singleValued = false;
     static const char *name() { return "int"; }
     // never 0 (= int()), sign alternates
     static int make(uint64_t s) { return (s & 1) ? (int)(s % 1000000007ULL) + 1 : -(int)(s % 1000000007ULL) - 1; }
@@ -37,12 +47,14 @@ template <> struct LT<int> {
 };
 template <> struct LT<unsigned> {
     static constexpr bool labelled = true;
+    static constexpr bool singleValued = false;
     static const char *name() { return "unsigned"; }
     static unsigned make(uint64_t s) { return (unsigned)(s % 4000000007ULL) + 1; }
     static std::string str(unsigned l) { return std::to_string(l); }
 };
 template <> struct LT<double> {
     static constexpr bool labelled = true;
+    static constexpr bool singleValued = false;
     static const char *name() { return "double"; }
     static double make(uint64_t s) { return ((s & 1) ? 1.0 : -1.0) * (double)(s % 100000000ULL + 1) / 16.0; }
     static std::string str(double l) {
@@ -53,12 +65,14 @@ template <> struct LT<double> {
 };
 template <> struct LT<char> {
     static constexpr bool labelled = true;
+    static constexpr bool singleValued = false;
     static const char *name() { return "char"; }
     static char make(uint64_t s) { return (char)(s % 255 + 1); } // never '\0' (= char())
     static std::string str(char l) { return std::to_string((int)l); }
 };
 template <> struct LT<std::string> {
     static constexpr bool labelled = true;
+    static constexpr bool singleValued = false;
     static const char *name() { return "string"; }
     static std::string make(uint64_t s) {
         // some long enough to leave the small-string buffer
@@ -68,8 +82,16 @@ template <> struct LT<std::string> {
     }
     static std::string str(const std::string &l) { return l; }
 };
+template <> struct LT<EmptyLabel> {
+    static constexpr bool labelled = true;
+    static constexpr bool singleValued = true; // no two values differ: "a different label" does not exist
+    static const char *name() { return "empty-struct"; }
+    static EmptyLabel make(uint64_t) { return {}; }
+    static std::string str(const EmptyLabel &) { return "{}"; }
+};
 template <> struct LT<UserLabel> {
     static constexpr bool labelled = true;
+    static constexpr bool singleValued = false;
     static const char *name() { return "struct"; }
     static UserLabel make(uint64_t s) {
         UserLabel l;
